@@ -39,6 +39,7 @@ ASSUMPTIONS = [
     'n = 6 with single streams and degree <= 3 (14 546 flowsheets) x the 12 orders {identity, reverse, all rotations of both} (quick: identity and reverse); sizes 7-10 of the quantifier are NOT explored',
     'port layout: edges-first and feeds/products-first everywhere; every interleaving of the free ports with the edge ports of a port list (applied uniformly over the units: 9 in/out choices x 2 partner '
     'orders) for all n <= 3 flowsheets and for n = 4 with port counts deviating from the minimum in <= 1 place (n = 4: thorough; quick: products-first with 8 fixed orders)',
+    'cyclic n = 5: one back edge only; all edge multisets with minimal ports (thorough), single streams with ports deviating in <= 1 place (thorough), single streams with minimal ports (quick); 10 fixed orders',
     'cyclic flowsheets: a back edge gets an additional outlet port on the later unit and an additional inlet port on the earlier one; the feed and '
     'product ports of the acyclic flowsheet are kept, so every unit still reaches a product and every source unit still has a feed; no self loops',
     'cyclic: "contains exactly the given units" is checked as set equality (a unit shared by two loops may be listed in both sub-networks); '
@@ -748,7 +749,7 @@ SYSTEMS = [
     # feed / product ports BEFORE the edge ports (side draws): quick slice of the thorough space of c19.acyclic.n4.dev1
     C19('c19.acyclic.n4.dev1.products-first', _G(4, ports='dev1', layouts=(1,)), None, orders={'quick': 'fixed8'}),
     # every interleaving of feed / product ports with edge ports in each port list (9 in/out choices x ascending / descending partner order)
-    C19('c19.acyclic.n2-3.interleave', _chain(_G(2, layouts=INTERLEAVINGS), _G(3, layouts=INTERLEAVINGS)),
+    C19('c19.acyclic.n2-3.interleave', _chain(_G(2, layouts=INTERLEAVINGS), _G(3, ports='dev1', layouts=INTERLEAVINGS)),
         _chain(_G(2, layouts=INTERLEAVINGS), _G(3, layouts=INTERLEAVINGS))),
     # six units, single streams, degree <= 3 (converging branches), minimal ports
     C19('c19.acyclic.n6.simple3', _G(6, ports='min', maxpar=1, maxdeg=3, layouts=(0, 1)), _G(6, ports='min', maxpar=1, maxdeg=3, layouts=(0, 1)),
@@ -758,6 +759,10 @@ SYSTEMS = [
         _chain(_G(2, backs=(1, 2, 3), hss=(0, 1), layouts=(0, 1)), _G(3, backs=(1, 2, 3), hss=(0, 1), layouts=(0, 1))), twice=True),
     C19('c19.cyclic.n4.min', _G(4, backs=(1, 2, 3), ports='min'), _G(4, backs=(1, 2, 3), ports='dev1', hss=(0,))),
     C19('c19.acyclic.n5.min', _G(5, ports='min'), None, orders='fixed12'),
+    # five units, single streams, one back edge: quick minimal ports (a slice of c19.cyclic.n5.min), thorough additionally ports deviating in <= 1 place
+    # (second feeds / side products) and the products-first layout; 10 fixed orders = every unit first once in ascending and once in descending rotation
+    C19('c19.cyclic.n5.simple', _G(5, backs=(1,), ports='min', maxpar=1),
+        _chain(_G(5, backs=(1,), ports='dev1', maxpar=1), _G(5, backs=(1,), ports='min', maxpar=1, layouts=(1,))), orders='fixed12'),
     C19('c19.history.n3', _hist_cfgs('quick'), _hist_cfgs('thorough'), history=True, depth_q=3, depth_t=4),
     # build a network, re-pipe THE SAME unit objects into another flowsheet, build again (all unit orders): state kept from the first build must not matter
     C19('c19.rebuild.n3', _rebuild_cfgs(3, None), _chain(_rebuild_cfgs(3, None), _rebuild_cfgs(3, None, layout=1, hs=1)), rebuild=True, depth_q=3, depth_t=3),
